@@ -263,6 +263,8 @@ pub enum Framing {
     ContentLength,
     /// Transfer-Encoding: chunked, one HTTP chunk per body chunk
     Chunked,
+    /// an HTTP/1.0 request line (old proxies, `curl --http1.0`), Content-Length body
+    Http10,
 }
 
 /// Send one request over a fresh TCP connection (Connection: close) and read the full response.
@@ -279,8 +281,13 @@ fn socket_request_inner(addr: &str, req: &HttpReq, framing: Framing, timeout: Du
     s.set_write_timeout(Some(timeout))?;
     s.set_nodelay(true)?;
     let mut head = Vec::new();
-    head.extend_from_slice(format!("{} {} HTTP/1.1\r\n", req.method, req.path).as_bytes());
-    head.extend_from_slice(b"Host: localhost\r\nConnection: close\r\n");
+    if matches!(framing, Framing::Http10) {
+        head.extend_from_slice(format!("{} {} HTTP/1.0\r\n", req.method, req.path).as_bytes());
+        head.extend_from_slice(b"Host: localhost\r\n");
+    } else {
+        head.extend_from_slice(format!("{} {} HTTP/1.1\r\n", req.method, req.path).as_bytes());
+        head.extend_from_slice(b"Host: localhost\r\nConnection: close\r\n");
+    }
     for (k, v) in &req.headers {
         head.extend_from_slice(k.as_bytes());
         head.extend_from_slice(b": ");
@@ -291,7 +298,7 @@ fn socket_request_inner(addr: &str, req: &HttpReq, framing: Framing, timeout: Du
     let mut write_err: Option<std::io::Error> = None;
     if has_body {
         match framing {
-            Framing::ContentLength => {
+            Framing::ContentLength | Framing::Http10 => {
                 head.extend_from_slice(format!("Content-Length: {}\r\n\r\n", req.body_len()).as_bytes());
                 if let Err(e) = s.write_all(&head) {
                     write_err = Some(e);
@@ -334,6 +341,10 @@ fn socket_request_inner(addr: &str, req: &HttpReq, framing: Framing, timeout: Du
             }
         }
     } else {
+        // (an HTTP/1.0 POST without a length is refused by the codec before it reaches the application)
+        if matches!(framing, Framing::Http10) && !matches!(req.method.as_str(), "GET" | "HEAD" | "DELETE" | "OPTIONS") && !req.headers.iter().any(|(k, _)| k.eq_ignore_ascii_case("content-length")) {
+            head.extend_from_slice(b"Content-Length: 0\r\n");
+        }
         head.extend_from_slice(b"\r\n");
         if let Err(e) = s.write_all(&head) {
             write_err = Some(e);
